@@ -10,6 +10,7 @@ CONSTANTS
   PublishAfterUnlock = FALSE
   CreatedRevalidated = FALSE
   DeleteHoldsLock = TRUE
+  SnapHoldsLock = TRUE
   DeleteRechecks = TRUE
   Equiv = "none"
   SubSer = FALSE
